@@ -589,24 +589,30 @@ def parseReading (s : String) : Option (Int × Option Rat) :=
   | [t, v] => do some (← t.toInt?, some (← parseRat v))
   | _ => none
 
+def parseReadingW (s : String) : Option (Int × Int × Option Rat) :=
+  match s.splitOn ":" with
+  | [t, w, "nan"] => do some (← t.toInt?, ← w.toInt?, none)
+  | [t, w, v] => do some (← t.toInt?, ← w.toInt?, some (← parseRat v))
+  | _ => none
+
 def showRat (r : Rat) : String := s!"{r.num}/{r.den}"
 
 /-- `resample <billing_monthly|billing_bimonthly|subdaily> <b0,b1,...> <t:num/den|t:nan ...>` -/
 def opResample (args : List String) : String :=
   match args with
   | mode :: bounds :: reads =>
-    match (bounds.splitOn ",").mapM String.toInt?, reads.mapM parseReading with
-    | some bs, some rs =>
+    match (bounds.splitOn ",").mapM String.toInt? with
+    | some bs =>
       let out : Option (List (Option Rat)) :=
         match mode with
-        | "billing_monthly" => some (Model.Resample.billingDaily .monthly rs bs)
-        | "billing_bimonthly" => some (Model.Resample.billingDaily .bimonthly rs bs)
-        | "subdaily" => some (Model.Resample.subDaily rs bs)
+        | "billing_monthly" => (reads.mapM parseReadingW).map fun rs => Model.Resample.billingDaily .monthly rs bs
+        | "billing_bimonthly" => (reads.mapM parseReadingW).map fun rs => Model.Resample.billingDaily .bimonthly rs bs
+        | "subdaily" => (reads.mapM parseReading).map fun rs => Model.Resample.subDaily rs bs
         | _ => none
       match out with
       | some l => "ok " ++ " ".intercalate (l.map fun | some r => showRat r | none => "none")
       | none => "bad-op"
-    | _, _ => "bad-op"
+    | _ => "bad-op"
   | _ => "bad-op"
 
 /-- `tempagg <hourly|inst_divided|inst> <b0,b1,...> <t:num/den|t:nan ...>` -/
@@ -646,15 +652,15 @@ def showDQ : Model.Sufficiency.DQ → String
   | .missing_monthly_meter_data => "missing_monthly_meter_data"
   | .missing_monthly_ghi_data => "missing_monthly_ghi_data"
 
-/-- `suff <daily|billing|hourly> <reporting 0/1> <electric 0/1> <row ...>` -/
+/-- `suff <daily|billing|hourly> <method reporting 0/1> <is_reporting_data flag 0/1> <electric 0/1> <row ...>` -/
 def opSuff (args : List String) : String :=
   match args with
-  | fam :: rep :: el :: rows =>
+  | fam :: meth :: rep :: el :: rows =>
     let fam? : Option Model.Sufficiency.Family := match fam with
       | "daily" => some .daily | "billing" => some .billing | "hourly" => some .hourly | _ => none
     match fam?, rows.mapM parseSuffRow with
     | some f, some rs =>
-      let cfg : Model.Sufficiency.Cfg := { family := f, reporting := rep == "1", electric := el == "1" }
+      let cfg : Model.Sufficiency.Cfg := { family := f, methodReporting := meth == "1", reporting := rep == "1", electric := el == "1" }
       let v := Model.Sufficiency.verdict cfg rs
       let nd := match Model.Sufficiency.nDaysTotal rs with | some n => toString n | none => "none"
       s!"ok n_days_total={nd} " ++ " ".intercalate (v.map showDQ)
